@@ -280,6 +280,35 @@ theorem gen_integrate_vec_eq (g : MultiDomainGrid α K) (hwf : (toModel g).WF) (
 
 end semiring
 
+/-! ### the refusing methods (`get_localgrid`, `moments`) -/
+
+/-- **`MultiDomainGrid.moments` refuses**: for every multi-domain grid and every argument tuple (whatever
+the kinds of `centers` / `func_vals`, every `type_mom`, both values of `return_orders`) the generated
+method raises `NotImplementedError` — it has no route on which it returns a value. -/
+theorem gen_moments_not_implemented {τc τf ρ : Type} (g : MultiDomainGrid α K) (orders : Int) (centers : τc)
+    (func_vals : τf) (type_mom : String) (return_orders : Bool) :
+    (g.moments orders centers func_vals type_mom return_orders : Except Err ρ) = .error .notImplementedError := rfl
+
+/-- **The defaults of `moments` in the code are `type_mom = "cartesian"`, `return_orders = False`** (the
+defaults of `Grid.moments`, which the signature mirrors): the call with three arguments is the call with
+these two spelled out. -/
+theorem gen_moments_defaults {τc τf ρ : Type} (g : MultiDomainGrid α K) (orders : Int) (centers : τc)
+    (func_vals : τf) :
+    (g.moments orders centers func_vals : Except Err ρ) = g.moments orders centers func_vals "cartesian" false := rfl
+
+/-- **`MultiDomainGrid.get_localgrid` refuses** for every centre and radius. -/
+theorem gen_get_localgrid_not_implemented {τc τr ρ : Type} (g : MultiDomainGrid α K) (center : τc) (radius : τr) :
+    (g.get_localgrid center radius : Except Err ρ) = .error .notImplementedError := rfl
+
+/-- The refusals are not artefacts of an unconstructible object: on the grid of the examples below the
+constructor succeeds, `integrate` answers, `moments` and `get_localgrid` refuse. -/
+example : ∃ g : MultiDomainGrid (List Int) Int,
+    MultiDomainGrid.init [⟨[[10], [20]], [1, -2]⟩, ⟨[[1, 0, 0], [0, 2, 0]], [1, 3]⟩] none = .ok g ∧
+    (g.moments 2 [[0, 0, 0]] [1, 2, 3, 4] : Except Err (List (List Int))) = .error .notImplementedError ∧
+    (g.moments 2 [[0, 0, 0]] [1, 2, 3, 4] "pure" true : Except Err (List (List Int))) = .error .notImplementedError ∧
+    (g.get_localgrid [0, 0, 0] 1 : Except Err (MultiDomainGrid (List Int) Int)) = .error .notImplementedError :=
+  ⟨_, rfl, rfl, rfl, rfl⟩
+
 /-! ### non-vacuity: the generated programs on the mixed 1-D / 3-D instance of `Props/C18.lean` -/
 
 /-- the integrand of the examples in both calling conventions -/
